@@ -96,7 +96,7 @@ func mkConfig(c *vlib.Ctx, cname string, depth int, withQ bool) hsx.Config {
 		{kind: "line", log: 0, text: "1"}, {kind: "line", log: 0, text: "e"}, {kind: "line", log: 1, text: "1"}, {kind: "line", log: 1, text: "e"},
 		{kind: "frag", log: 0, text: "F"}, {kind: "frag", log: 0, text: "\r"},
 		{kind: "trunc", log: 0},
-		{kind: "prog", ver: "ok"}, {kind: "prog", ver: "errs"}, {kind: "prog", ver: "broken"}, {kind: "prog", ver: "clash"},
+		{kind: "prog", ver: "ok"}, {kind: "prog", ver: "errs"}, {kind: "prog", ver: "broken"}, {kind: "prog", ver: "clash"}, {kind: "prog", ver: "dangling"},
 		{kind: "rmprog"}, {kind: "poll"},
 	}
 	names := make([]string, len(ops))
@@ -189,7 +189,7 @@ func mkConfig(c *vlib.Ctx, cname string, depth int, withQ bool) hsx.Config {
 							want.unloads["p.mtail"]++
 						}
 					case fileVer == running:
-					case fileVer == "broken":
+					case fileVer == "broken", fileVer == "dangling":
 						want.loadErrs["p.mtail"]++
 					case fileVer == "clash" && withQ:
 						want.loadErrs["p.mtail"]++
@@ -231,7 +231,13 @@ func mkConfig(c *vlib.Ctx, cname string, depth int, withQ bool) hsx.Config {
 							applic = false
 							return
 						}
-						_ = os.WriteFile(pfile, []byte(versions[o.ver]), 0o644)
+						_ = os.Remove(pfile) // never write through a symbolic link left by "dangling"
+						if o.ver == "dangling" {
+							// listed by the directory scan but cannot be opened: a failed load attempt
+							_ = os.Symlink(filepath.Join(dir, "gone.mtail"), pfile)
+						} else {
+							_ = os.WriteFile(pfile, []byte(versions[o.ver]), 0o644)
+						}
 						fileVer = o.ver
 						reload()
 					case "rmprog":
@@ -325,5 +331,5 @@ func main() {
 		"counters are process-global expvars and are read as deltas from the start of each execution",
 		"the prometheus registry's DescribeByCollect goroutine takes the free store lock directly (see C19)",
 	}
-	hsx.Explore(c, "explicit-state exploration of histories over {append a line (integer / non-integer text) to log a or b, append an unterminated fragment (text, or a lone carriage return), truncate a log, write p.mtail as {ok, raises a runtime error on non-integer lines, does not compile, cannot register because q.mtail holds one of its names with another kind} and reload, remove p.mtail and reload, poll} on the whole pipeline (tailer, file streams, runtime, VMs); after every step lines_total, log_lines_total per log, log_count, prog_runtime_errors_total, prog_loads_total, prog_unloads_total and prog_load_errors_total per program moved by exactly the number of such events in the history; after the pipeline is stopped the line counters have also counted the pending fragments, once", cfgs...)
+	hsx.Explore(c, "explicit-state exploration of histories over {append a line (integer / non-integer text) to log a or b, append an unterminated fragment (text, or a lone carriage return), truncate a log, write p.mtail as {ok, raises a runtime error on non-integer lines, does not compile, a dangling symbolic link (listed but cannot be opened), cannot register because q.mtail holds one of its names with another kind} and reload, remove p.mtail and reload, poll} on the whole pipeline (tailer, file streams, runtime, VMs); after every step lines_total, log_lines_total per log, log_count, prog_runtime_errors_total, prog_loads_total, prog_unloads_total and prog_load_errors_total per program moved by exactly the number of such events in the history; after the pipeline is stopped the line counters have also counted the pending fragments, once", cfgs...)
 }
